@@ -271,7 +271,18 @@ def _finish_path(res, ctx, h, timeout_ms, keep_models, model_hook):
                         except Exception as e:
                             rec["witness_error"] = repr(e)
             res.obligations.append(rec)
+        # rows found to be the zero functional on this path (row.any() False, rows decided equal by np.unique): a fact at every
+        # point the path speaks of (A5)
+        zfacts = []
+        for zrow in getattr(ctx, "zero_rows", None) or []:
+            for pt in getattr(ctx, "h_points", None) or []:
+                try:
+                    zfacts.append(zrow.ev(pt) == 0)
+                except Exception:
+                    pass
         for clause, formula, meta in h.obligations:
+            if zfacts:
+                formula = z3.Implies(z3.And(*zfacts), formula)
             status, dt, model, backend = discharge(ctx.pc, formula, timeout_ms)
             res.solver_s += dt
             rec = {"clause": clause, "path": sig, "kind": "vc", "status": status, "backend": backend, "time_s": round(dt, 4)}
